@@ -125,7 +125,7 @@ pub fn run_oracles_opts(
 }
 
 /// Adds a driver error at a random call index of the fault-free run (or none).
-fn maybe_fault(case: &mut Case, r: &mut Prng, per_mille: u32) {
+pub fn maybe_fault(case: &mut Case, r: &mut Prng, per_mille: u32) {
     if !r.chance(per_mille, 1000) {
         return;
     }
@@ -261,6 +261,28 @@ pub fn twin_x_case(r: &mut Prng) -> Case {
         script: Script { layout: vec![n_in], values: ValueFn::Small { salt: r.next_u64(), modulus: 16 }, faults: vec![], override_write: r.chance(1, 2), rebuild_signals: false },
         layout_opts: crate::pp::Layout::plain(),
         rng_seed: 1,
+    }
+}
+
+/// A driver that, once, answers a checked row with MORE than its layout: an unknown signal, an
+/// input signal, or one entry twice. The row is an error item (wrong number of outputs); every
+/// signal still has its value, so everything after it is prescribed (2.10).
+pub fn maybe_superset(case: &mut Case, r: &mut Prng, per_mille: u32) {
+    if !case.script.faults.is_empty() || !r.chance(per_mille, 1000) {
+        return;
+    }
+    if let crate::refint::RefOutcome::Done(t) = crate::refint::run(&case.program, &case.signals, &case.script, Default::default()) {
+        let checked: Vec<usize> = t.calls.iter().enumerate().skip(1).filter(|(_, c)| c.reads).map(|(i, _)| i).collect();
+        if !checked.is_empty() {
+            let at = *r.pick(&checked);
+            let ins: Vec<usize> = (0..case.signals.len()).filter(|&i| matches!(case.signals[i].kind, SigKind::In(_))).collect();
+            let f = match r.below(3) {
+                0 if !ins.is_empty() => Fault::AddInput(*r.pick(&ins)),
+                1 if !case.script.layout.is_empty() => Fault::Duplicate(r.below(case.script.layout.len())),
+                _ => Fault::AddUnknown,
+            };
+            case.script.faults.push((at, f));
+        }
     }
 }
 
@@ -635,6 +657,7 @@ pub fn c04(case_seed: u64, acc: &mut Acc) {
         // a failed driver call returns nothing: the values read before it stay the latest
         maybe_fault(&mut case, &mut r, 200);
         maybe_reorder(&mut case, &mut r, 60);
+    maybe_superset(&mut case, &mut r, 60);
     }
     let ran = run_oracles(
         &case,
@@ -1009,7 +1032,14 @@ pub fn profile_binding() -> GenCfg {
 
 pub fn c06(case_seed: u64, acc: &mut Acc) {
     let mut r = Prng::new(case_seed);
-    let cfg = profile_binding();
+    let mut cfg = profile_binding();
+    if r.chance(150, 1000) {
+        // rows whose entries read device outputs that are now and then Z / X: such a row is an
+        // error item, and the rows after it must be bound to their columns as ever
+        cfg.reads = 350;
+        cfg.value_mode = 1;
+        cfg.mixed_rates = (120, 120, 100);
+    }
     let mut case = gen::generate(&mut r, &cfg);
     // (the first row after an error item: `changed` refers to the vector of the failed call)
     maybe_fault(&mut case, &mut r, 150);
@@ -1165,6 +1195,7 @@ pub fn c14(case_seed: u64, acc: &mut Acc) {
     }
     maybe_fault(&mut case, &mut r, 150);
     maybe_reorder(&mut case, &mut r, 60);
+    maybe_superset(&mut case, &mut r, 60);
     run_oracles(
         &case,
         case_seed,
@@ -1274,6 +1305,7 @@ pub fn c18(case_seed: u64, acc: &mut Acc) {
     }
     maybe_fault(&mut case, &mut r, 150);
     maybe_reorder(&mut case, &mut r, 60);
+    maybe_superset(&mut case, &mut r, 60);
     let held_before = acc.held;
     let ran = run_oracles(
         &case,
